@@ -626,3 +626,93 @@ LEVELS = {
 
 def level_of(pid):
     return LEVELS.get(pid)
+
+
+_C02T = "quimb/tensor/tensor_core.py"
+_C02U = "quimb/utils.py"
+entry("C02", modules=["contracts.c02_maps"],
+      E1=[f"{_C02T}::TensorNetwork._link_tags", f"{_C02T}::TensorNetwork._unlink_tags",
+          f"{_C02T}::TensorNetwork._link_inds", f"{_C02T}::TensorNetwork._unlink_inds",
+          f"{_C02T}::TensorNetwork._reset_inner_outer", f"{_C02T}::TensorNetwork._next_tid",
+          f"{_C02T}::TensorNetwork.add_tensor", f"{_C02T}::TensorNetwork.pop_tensor",
+          f"{_C02T}::TensorNetwork._modify_tensor_tags", f"{_C02T}::TensorNetwork._modify_tensor_inds",
+          f"{_C02T}::TensorNetwork._get_tids_from", f"{_C02T}::oset_union", f"{_C02T}::oset_intersection"] +
+         [f"{_C02U}::oset.{m}" for m in ("add", "discard", "remove", "clear", "update", "union", "intersection_update",
+                                         "intersection", "difference_update", "difference", "copy", "from_dict",
+                                         "_from_dict", "__eq__", "__or__", "__ior__", "__and__", "__iand__", "__sub__",
+                                         "__isub__", "__len__", "__contains__")],
+      PROVIDERS=["contracts.c02_maps.provider_fsets"],
+      TRUSTED=["fsets: card(S) of a finite set with the ground-instantiated axioms card>=0, card==0 <=> S=={}, "
+               "card(S+{t}) = card(S)+[t not in S], card(S-{t}) = card(S)-[t in S], assumed at the add/discard/literal "
+               "sites only (exhaustively checked against true cardinality on a 3-element universe by provider_fsets)",
+               "leaf: iterating an oset / a dict enumerates exactly its members, each once (order unspecified); "
+               "oset(it) / dict.fromkeys holds exactly the items of it; oset((t,)) has one member; toolz.concat yields the "
+               "items of all parts (the first three exhaustively checked on the real oset for sequences of length <= 3)",
+               "leaf: object.__new__(oset) makes a blank oset; dict item store / pop(k, None) / del / clear / update / copy / "
+               "__len__ / __contains__ / == with their python meaning on dicts whose values are all None (key-set view); "
+               "set(d), set.intersection, set.union as set algebra",
+               "leaf (symbolic length only): oset_intersection / oset_union of the entries of a key sequence of symbolic "
+               "length return {t | t in all / in some entry}; both combiners are PROVED on tuples of 0-3 osets",
+               "leaf: Tensor.copy() keeps the tag and label sequences; Tensor.add_owner / remove_owner do not touch the "
+               "network's maps (owner registry I6 is not part of these contracts)",
+               "finiteness of tensor_map: its int keys have a strict upper bound (ghost; gives the decreasing measure of "
+               "the while loop of _next_tid)",
+               "skolem form: every statement is proved at ONE arbitrary key X, tid T, element E, position J (constants that "
+               "are never constrained); INV is assumed at the same constants; a callee's contract is used only at the keys "
+               "at which its precondition is re-proved at the call site"],
+      ASSUMPTIONS=["labels repeated on one tensor: known defect, DESIGN finding 2 / C02-a, reported by the bounded driver. "
+                   "DOMAIN RESTRICTION of every case except `repeats-allowed`: no tensor carries the same label twice, so that "
+                   "(I5) inner <=> carried by >= 2 TENSORS, outer <=> by exactly 1, equals the property's fresh scan "
+                   "(occurrences WITH multiplicity). Preconditions: the label sequence handed to _link_inds has pairwise "
+                   "distinct items and tid is in no entry of those labels; add_tensor's tensor has no repeated label; "
+                   "_unlink_inds / _unlink_tags / _link_tags: no restriction (any sequence, tid member or not)",
+                   "case `repeats-allowed` of _link_inds / _unlink_inds drops the restriction (ghost occ = occurrences with "
+                   "multiplicity, mult = multiplicity on tensor tid, inds = the complete label tuple of tid): _link_inds is "
+                   "proved, _unlink_inds FAILS on the unchanged tree (obligations "
+                   "TensorNetwork._unlink_inds[repeats-allowed]::inv-step@loop0:INV-I4-inner-outer-cover-dom / "
+                   "INV-I5-inner-iff-count>=2 / INV-I5-outer-iff-count==1; natively replayed)",
+                   "labels, tags and tids are Int-coded; tids are ints (pop_tensor: int tid kind only; the tag-selecting kind "
+                   "goes through _get_tids_from_tags and is not covered)",
+                   "oset: membership view only -- insertion ORDER (what iteration / popleft / popright / repr show) is NOT "
+                   "specified by these contracts and not covered; `others` are osets (update / union also: one plain iterable of "
+                   "symbolic length); 0-3 others; intersection_update / difference_update / difference need at least one "
+                   "argument (with none the code raises IndexError, unlike the builtin set); the dict of an oset is not shared "
+                   "with another oset (only the private _from_dict could create sharing)",
+                   "_get_tids_from: xs is an oset (what tags_to_oset hands over); which in {all, any, !all, !any} or an invalid "
+                   "string (KeyError); a key absent from the map raises KeyError (as coded); the empty key set selects nothing "
+                   "for all/any and every tensor for !all/!any (as coded)",
+                   "_reset_inner_outer: every label of the sequence is a key of ind_map (else KeyError)",
+                   "(I2)/(I3) (an entry holds tid <=> tid in tensor_map and its tensor carries the key) are stated for "
+                   "add_tensor, pop_tensor and (at the re-keyed tid) _modify_tensor_*; the link/unlink primitives "
+                   "deliberately break and restore them and are specified on the maps alone",
+                   "NOT brought under contract (bounded drivers only): add_tensor_network, add, remove_all_tensors, "
+                   "__setitem__/__delitem__/delete, _get_tids_from_tags/_inds, _select_tids, partition(_tensors), the copy "
+                   "branch of __init__, __getstate__/__setstate__, Tensor.add_owner/remove_owner/check_owners/modify"],
+      BOUNDED_FOR={"TensorNetwork._link_tags": ["ind_map / tag_map"], "TensorNetwork._unlink_tags": ["ind_map / tag_map"],
+                   "TensorNetwork._link_inds": ["ind_map / tag_map", "_inner_inds / _outer_inds"],
+                   "TensorNetwork._unlink_inds": ["_inner_inds / _outer_inds", "ind_map / tag_map"],
+                   "TensorNetwork._reset_inner_outer": ["_inner_inds / _outer_inds"],
+                   "TensorNetwork._next_tid": ["tensor_map and the tensors' labels/tags show exactly the abstract effect"],
+                   "TensorNetwork.add_tensor": ["tensor_map and the tensors' labels/tags show exactly the abstract effect",
+                                                "ind_map / tag_map"],
+                   "TensorNetwork.pop_tensor": ["tensor_map and the tensors' labels/tags show exactly the abstract effect",
+                                                "ind_map / tag_map", "_inner_inds / _outer_inds"],
+                   "TensorNetwork._modify_tensor_tags": ["ind_map / tag_map"],
+                   "TensorNetwork._modify_tensor_inds": ["ind_map / tag_map", "_inner_inds / _outer_inds"],
+                   "TensorNetwork._get_tids_from": ["select / select_tensors / _get_tids_from_tags"],
+                   "oset_union": ["select / select_tensors / _get_tids_from_tags"],
+                   "oset_intersection": ["select / select_tensors / _get_tids_from_tags"]},
+      EXPLANATION="E1 (tnmaps + fsets): ghost state per network object (entries, key presence and ghost cardinality of tag_map / "
+                  "ind_map, inner / outer, keys of tensor_map, ghost tag / label sequence per tid). Class invariant INV: (I1) key "
+                  "present <=> entry non-empty, (Icard) ghost count == card(entry), (I4) inner / outer disjoint and cover the "
+                  "keys, (I5) inner <=> count >= 2, outer <=> count == 1, (I2/I3) entry holds tid <=> the tensor stored under "
+                  "tid carries the key. Proved for every sequence length, every key and tid (skolem form), over the WHOLE view: "
+                  "_link_tags / _unlink_tags / _link_inds / _unlink_inds / _reset_inner_outer (loop invariants over the "
+                  "processed prefix through the spec function seen(seq, x, i)), _next_tid (fresh, first free from the counter, "
+                  "terminates), add_tensor (T' = T + {tid'}, tid' free, maps gain exactly the tensor's tags / labels), "
+                  "pop_tensor (the inverse; KeyError iff absent, nothing changed), _modify_tensor_tags / _inds (exactly one tid "
+                  "re-keyed to `new`, via the proved oset difference), _get_tids_from (exactly the intersection / union of the "
+                  "entries or its complement within tensor_map), oset_union / oset_intersection on 0-3 sets, and 22 oset methods "
+                  "against set algebra incl. frame (new-returning methods leave receiver and arguments untouched and return "
+                  "an unshared object; in-place ones modify / return the receiver; aliasing o.op(o) included). Known defect "
+                  "reproduced as failing obligations of the case `repeats-allowed` of _unlink_inds.")
